@@ -37,7 +37,7 @@ func init() {
 		ID: "C14",
 		Explanation: "Decided: (R1) which blocking primitives are synchronously reachable from Tell (effect analysis over the call graph): the remoting send path's dial, handshake, retry sleep, writes and wait are a KNOWN FINDING (Tell blocks while the peer is unreachable, contrary to the documented contract); any other blocking primitive is a violation; " +
 			"(R2) every failing exit of the send loop is reported (C03.R6) and an encode failure aborts the loop with the error; (R3) once a non-zero frame length was read the reader never re-arms without consuming exactly that many bytes — paths that do not consume kill the connection actor; (R4) the retry limit is clamped to >= 0, the retry loop exits on it, nothing reachable from a retry iteration writes the attempt counter, a stopped system aborts; " +
-			"(R5) a failed write / closed connection clears the cached connection before the retry, and non-EOF read errors kill the connection actor without re-arming; (R6) an undecodable frame re-arms the reader; (R7) because the clean-EOF exit leaves the old connection actor registered, the name under which a connection actor is spawned contains a per-socket component, so a re-dial to the same peer does not collide with it. (R8) the retry helper object, which carries the attempt counter and is reset whenever a send returns, is created fresh for every mailbox (the value stored into the mailbox's field is an allocation or a constructor result): the per-peer lock then protects it, and traffic to a healthy peer cannot reset the count of an unreachable one. (R4, addition) every return of the retry helper leaves the attempt counter reset (deferred reset registered on every path, or a reset on every path from an advance to a return); (R9 = C11.R3) the frame reader re-arms or terminates its connection on every path; (R10) the value handed to the connection's Write is the frame encoder's result on every attempt, never a re-slice or remainder. (R11) no error of the transport package is dropped implicitly (bare call statements over the syntax tree). NOT decided: 'what it receives is a subsequence' under arbitrary cut points, duplicates after an ambiguous write error, recovery timing.",
+			"(R5) a failed write / closed connection clears the cached connection before the retry, and non-EOF read errors kill the connection actor without re-arming; (R6) an undecodable frame re-arms the reader; (R7) because the clean-EOF exit leaves the old connection actor registered, the name under which a connection actor is spawned contains a per-socket component, so a re-dial to the same peer does not collide with it. (R8) the retry helper object, which carries the attempt counter and is reset whenever a send returns, is created fresh for every mailbox (the value stored into the mailbox's field is an allocation or a constructor result): the per-peer lock then protects it, and traffic to a healthy peer cannot reset the count of an unreachable one. (R4, addition) every return of the retry helper leaves the attempt counter reset (deferred reset registered on every path, or a reset on every path from an advance to a return); (R9 = C11.R3) the frame reader re-arms or terminates its connection on every path; (R10) the value handed to the connection's Write is the frame encoder's result on every attempt, never a re-slice or remainder. (R11) no error of the transport package is dropped implicitly (bare call statements over the syntax tree). (R12) sibling agreement: Handshake.Send and Handshake.Wait arm and clear the same number of deadlines, so the two directions of a connection are left in the same state. NOT decided: 'what it receives is a subsequence' under arbitrary cut points, duplicates after an ambiguous write error, recovery timing.",
 		Rules: []Rule{
 			{ID: "C14.R1", Min: 4, Desc: "Tell effect analysis (blocking primitives)", Fn: c14TellBlocks},
 			{ID: "C14.R2", Min: 3, Desc: "failure reported; encode failure aborts", Fn: c14Reported},
@@ -53,6 +53,7 @@ func init() {
 					return rel == "internal/remoting" || rel == "internal/remoting/serialize"
 				})
 			}},
+			{ID: "C14.R12", Min: 1, Desc: "the two halves of the handshake treat their deadlines alike (sibling agreement)", Fn: c14HandshakeDeadlines},
 			{ID: "C14.R8", Min: 1, Desc: "retry state is per mailbox, never shared between peers", Fn: c14OwnBackoff},
 		},
 	})
@@ -2206,4 +2207,38 @@ func (p *Program) viaRefAccessor(lc *lifecycle, v ssa.Value, name string) bool {
 		}
 	}
 	return false
+}
+
+// c14HandshakeDeadlines: Send and Wait are the two halves of one exchange on the same connection; each arms a deadline for
+// its own direction. Whatever is done with these deadlines afterwards must be done for both directions: clearing only the read
+// side leaves a connection whose reader lives on while every write after the stale write deadline fails — the sender then
+// drops the connection without closing it, its reader actor stays blocked in Read, and Stop waits for it until its timeout.
+// Cross-check of siblings: the number of deadline arms and of deadline clears agrees between the two halves.
+func c14HandshakeDeadlines(p *Program, r *Report) {
+	send, wait := p.Method("internal/remoting", "Handshake", "Send"), p.Method("internal/remoting", "Handshake", "Wait")
+	if send == nil || wait == nil {
+		r.Unresolved("Handshake.Send / Handshake.Wait")
+		return
+	}
+	count := func(fn *ssa.Function) (arms, clears int) {
+		for _, f := range withAnon(fn) {
+			for _, b := range f.Blocks {
+				for _, in := range b.Instrs {
+					c := callOf(in)
+					if c == nil || !c.IsInvoke() || !strings.HasSuffix(c.Method.Name(), "Deadline") || !strings.HasPrefix(c.Method.Name(), "Set") || len(c.Args) != 1 {
+						continue
+					}
+					if anyContains(p.origins(c.Args[0]), "call:") {
+						arms++
+					} else {
+						clears++
+					}
+				}
+			}
+		}
+		return
+	}
+	sa, sc := count(send)
+	wa, wc := count(wait)
+	r.Check(sa == wa && sc == wc, "handshake deadlines are armed and cleared alike in both halves", send.Pos(), fmt.Sprintf("Send arms %d / clears %d deadline(s), Wait arms %d / clears %d: the two directions of the connection are left in the same state", sa, sc, wa, wc))
 }
